@@ -17,7 +17,7 @@ ob("da_size", "C12", entry="h_da_size", enforce="DAsize_array", **DA)
 ob("da_create", "C12", entry="h_da_create", enforce="DAcreate_array", **DA)
 
 # ----------------------------------------------------------------------------- hfiledd.c, in-memory directory
-HD = dict(unit="hfiledd_dir_u.c", file="hdf/src/hfiledd.c", objbits=10, timeout=900, flags=["--sat-solver", "cadical"],
+HD = dict(unit="hfiledd_dir_u.c", file="hdf/src/hfiledd.c", objbits=10, timeout=600, flags=["--sat-solver", "cadical"],
           backend="cbmc SAT (cadical)",
           trusted=["HEclear/HEpush (error stack)", "HAatom_object (file id -> file record or NULL)",
                    "tbbtdfind/tbbtdins (tag tree = finite map with one modelled key, A-TBBT)"])
@@ -31,14 +31,17 @@ ob("hticount_dd_odd", "C12", entry="h_count_dd", enforce="HTIcount_dd",
    bound="<= 2 DD blocks, ndds in {1,3,5}", unwind=7, cex_unwind=7, **HD)
 for _d, _dn in ((1, "fwd"), (2, "bwd")):
     ob(f"htifind_dd_{_dn}_wild", "C12", entry="h_find_dd", enforce="HTIfind_dd",
-       defines=["H4V_OB_FIND", f"H4V_DIRECTION={_d}", "H4V_EXACT=0"], mode="bounded",
+       defines=["H4V_OB_FIND", f"H4V_DIRECTION={_d}", "H4V_EXACT=0", "H4V_DDLIST_MAXALLOC"], mode="bounded",
        bound=f"<= 2 DD blocks, ndds <= 3, direction {_dn}, wildcard shapes (tag, ref or both wild)", unwind=6, cex_unwind=6, **HD)
-ob("htifind_dd_exact", "C12", entry="h_find_dd", enforce="HTIfind_dd", defines=["H4V_OB_FIND", "H4V_EXACT=1"], mode="bounded",
+ob("htifind_dd_fwd_wild2", "C12", entry="h_find_dd", enforce="HTIfind_dd",
+   defines=["H4V_OB_FIND", "H4V_DIRECTION=1", "H4V_EXACT=0", "H4V_MAXNDDS=2", "H4V_DDLIST_MAXALLOC"], mode="bounded",
+   bound="<= 2 DD blocks, ndds <= 2, forward, wildcard shapes", unwind=4, cex_unwind=4, **dict(HD, timeout=600))
+ob("htifind_dd_exact", "C12", entry="h_find_dd", enforce="HTIfind_dd", defines=["H4V_OB_FIND", "H4V_EXACT=1", "H4V_DDLIST_MAXALLOC"], mode="bounded",
    bound="<= 2 DD blocks, ndds <= 3, both directions, exact (tag, ref); ref table of 64 or 256 slots", unwind=6, cex_unwind=6, **HD)
 ob("htifind_dd_abs", "C12", entry="h_find_dd_abs", enforce="HTIfind_dd", defines=["H4V_OB_FIND_ABS"],
    mode="bounded", bound="<= 2 DD blocks, ndds <= 3 (abstraction used by hnewref)", unwind=6, cex_unwind=6, **HD)
 ob("hnewref", ["C12", "C20"], entry="h_newref", enforce="Hnewref", replace=["HTIfind_dd"], defines=["H4V_OB_NEWREF"],
-   loops=True, nloops=1, loopcls="P", cex_unwind=4, **HD)
+   loops=True, nloops=1, loopcls="P", cex_unwind=4, **dict(HD, flags=[], backend="cbmc SAT (minisat2)", timeout=300))
 ob("htiregister_existing", "C12", entry="h_register", enforce="HTIregister_tag_ref", defines=["H4V_OB_REGISTER"],
    mode="bounded", bound="tag already in the tree, ref inside the current ref table (no table growth)", unwind=3, cex_unwind=66,
    tier="thorough", **dict(HD, timeout=1800))
